@@ -275,6 +275,11 @@ fn get_match_statically_known(
     arg_provider.query_variable = &query_variable;
     arg_provider.query_function = &asm::resolver::get_statically_known_builtin_fn;
 
+    // Whether the match applies at all depends on its checked
+    // arguments (typed parameters, nested matches), even when
+    // the rule's production never reads them
+    let mut checked_args_known = true;
+
     for i in 0..rule.parameters.len()
     {
         let param = &rule.parameters[i];
@@ -292,11 +297,18 @@ fn get_match_statically_known(
                 // that happens to be called the same
                 if let InstructionArgumentKind::Expr(ref arg_expr) = arg.kind
                 {
+                    let value_known = arg_expr
+                        .is_value_statically_known(&arg_provider);
+
+                    if !matches!(param.typ, asm::RuleParameterType::Unspecified)
+                    {
+                        checked_args_known &= value_known;
+                    }
+
                     provider.locals.insert(
                         param.name.clone(),
                         expr::StaticallyKnownLocal {
-                            value_known: arg_expr
-                                .is_value_statically_known(&arg_provider),
+                            value_known,
                             ..expr::StaticallyKnownLocal::new()
                         });
                 }
@@ -306,14 +318,18 @@ fn get_match_statically_known(
             {
                 if let asm::InstructionArgumentKind::Nested(ref nested_match) = arg.kind
                 {
+                    let value_known = get_match_statically_known(
+                        decls,
+                        defs,
+                        symbol_ctx,
+                        nested_match);
+
+                    checked_args_known &= value_known;
+
                     provider.locals.insert(
                         param.name.clone(),
                         expr::StaticallyKnownLocal {
-                            value_known: get_match_statically_known(
-                                decls,
-                                defs,
-                                symbol_ctx,
-                                nested_match),
+                            value_known,
                             ..expr::StaticallyKnownLocal::new()
                         });
                 }
@@ -321,7 +337,8 @@ fn get_match_statically_known(
         }
     }
 
-    rule.expr.is_value_statically_known(&provider)
+    checked_args_known &&
+        rule.expr.is_value_statically_known(&provider)
 }
 
 
